@@ -186,5 +186,36 @@ def run(ctx: Ctx) -> None:
                 pad = len(rest) - len(rest.lstrip(" "))
                 cols[head] = len(head) + pad
         ctx.check(len(cols) == expect_n and set(cols.values()) == {col}, "Y5", f"padded lines, indent={indent}, {'with' if with_rep else 'without'} a repeated keyword", locf, f"all simple keywords start their value in column {col}", f"indent={indent}: value columns {cols}, expected all {col} (longest counted keyword has {longest} characters; block keywords such as PROJECTION / CONNECTIONOPTIONS / CLASSES must not be counted)")
+    # keywords written after a nested block use their own object's column, not the nested object's
+    for indent in (2, 3, 4):
+        def mixed():
+            cls = cd([("__type__", "class"), ("name", W("cn")), ("maxscaledenom", SNum.sym("m", None, None)), ("styles", [cd([("__type__", "style"), ("width", SNum.sym("w", None, None))])]), ("text", W("t"))])
+            return cd([("__type__", "layer"), ("name", W("n")), ("classes", [cls]), ("type", SStr.atom("enumword", lower_is="point")), ("status", SStr.atom("enumword2", lower_is="on")), ("processing", [W("p")])])
+
+        outs = L.format_lines(mixed, lambda indent=indent: L.sym_options(end_comment=False, align_values=True, indent=indent, spacer=" "), level=0, fork=False)
+        if len(outs) != 1 or outs[0][1] != "return":
+            raise AnalysisError(f"_format with align_values not evaluable on the mixed-order LAYER: {outs}")
+        depth = 0
+        cols: dict = {}
+        for ln in outs[0][2]:
+            s2 = pai.as_sstr(ln)
+            pieces = [p for p in s2.pieces if not isinstance(p, Rep)]
+            if not pieces or not isinstance(pieces[0], str):
+                continue
+            txt = pieces[0].lstrip(" ")
+            head = txt.split(" ")[0]
+            if head in ("LAYER", "CLASS", "STYLE"):
+                depth += 1
+                continue
+            if head == "END":
+                depth -= 1
+                continue
+            rest = txt[len(head):]
+            pad = len(rest) - len(rest.lstrip(" "))
+            cols.setdefault(depth, {})[head] = len(head) + pad
+        step = max(1, indent)
+        want = {1: (len("processing") // step + 1) * step, 2: (len("maxscaledenom") // step + 1) * step, 3: (len("width") // step + 1) * step}
+        bad = {d: c for d, c in cols.items() if set(c.values()) != {want.get(d)}}
+        ctx.check(not bad and set(cols) == {1, 2, 3}, "Y5", f"keywords after a nested block, indent={indent}", locf, f"columns {want} per nesting depth", f"indent={indent}: a LAYER whose CLASS block stands between its keywords (and a CLASS whose STYLE stands between its keywords) gets value columns {cols}, expected {want} at depths 1/2/3: keywords written after a nested block are aligned with the nested object's column")
     # counted = padded: PROJECTION / METADATA longer than the simple keys must not widen the column
     ctx.units["pai_paths"] = I.paths_run
